@@ -36,6 +36,9 @@ func c09Candidates(lvl int) []string {
 		gen.Seq(gen.Lit("1.", "1.0."), m),
 		gen.Seq(m, gen.Lit("!1.0", ".0")),
 		gen.Seq(gen.Lit("1.0+"), m),
+		gen.Seq(gen.Lit("1.", "1.0.", "1.0a", "1.0.post", "1.0.dev", "1.0+"), gen.LeadingZeros),
+		gen.Seq(gen.LeadingZeros, gen.Lit("!1.0", ".0")),
+		gen.Seq(gen.Lit("1.", "1.0.", "1.0a", "1.0.post", "1.0.dev"), gen.Lit("7", "8", "9", "10", "11")),
 	)
 	return g
 }
